@@ -82,11 +82,6 @@ class _KnnWorld(World):
       return S('dtype')
     return NotImplemented
 
-  def name(self, it, ident):
-    if ident in ('int',):
-      return S('dtype')
-    return NotImplemented
-
   def compare(self, it, op, a, b, node):
     if a == S('pl') and isinstance(b, int):
       if (isinstance(op, ast.GtE) and b == 0) or \
